@@ -96,7 +96,11 @@ def build_link(rng, bits, sps, R, shape, n_pol, with_fibre, wide=False):
             o = D.DM(o, b2L)
             el = dict(element="DM", D=b2L)
     desc["element"] = el
-    y = D.PD(o, BW, r, 300.0, R_load, "ase-only", 0.0)
+    # every way of switching the detector's own noise off: no thermal / shot term selected, or the thermal term selected at T = 0 K
+    # (the optical input carries no noise component, so the beating terms vanish)
+    mode, Tk = [("ase-only", 300.0), ("ase-only", 0.0), ("thermal-only", 0.0), ("ase-thermal", 0.0), ("ASE-ONLY", 77.0), ("ase-thermal", 0)][int(rng.integers(6))]
+    desc["pd_noise"] = (mode, Tk)
+    y = D.PD(o, BW, r, Tk, R_load, mode, 0.0)
     return y, desc
 
 
